@@ -1,6 +1,7 @@
 package props
 
 import (
+	"io"
 	"fmt"
 	"sort"
 	"strings"
@@ -969,8 +970,9 @@ func c01augmentOrder(c *core.Ctx) {
 
 func C01(c *core.Ctx) {
 	c01musts(c)
+	c01scopes(c)
 	c01augmentOrder(c)
-	c.Rule = "generated module sets: a main module whose body is built from leaves, containers, keyed lists and uses of groupings placed at module level, in the using container (sibling scope), in a submodule and in an imported module (prefixed uses), groupings nested in groupings, a grouping used several times with different refines (description, default, mandatory, config, min-elements incl. 0, max-elements as a number and as 'unbounded', each refined into the other) and uses-augments (into containers and lists of the copy), module-level augments into plain and into grouping-expanded containers in textual order, config false stated on some nodes; the compiled tree (kind, name, order, effective config, description, default, mandatory, min-/max-elements of every node) compared with the Lean expansion of the factored form, with the harness's own expansion, and with the compiled tree of the same schema written inline without any grouping, augment or second file; also: a leaf, container or list named like the grouping used next to it, a uses whose augment uses the same grouping again, a module grouping named like the imported grouping it wraps, presence stated and refined, leaves guarded by an enabled feature of the module (the load has imports); four augments of one module, each adding the target of the next, in six textual orders. non-trivial = module set with ≥2 uses, ≥1 refine and ≥1 augment; distinct by module set"
+	c.Rule = "generated module sets: a main module whose body is built from leaves, containers, keyed lists and uses of groupings placed at module level, in the using container (sibling scope), in a submodule and in an imported module (prefixed uses), groupings nested in groupings, a grouping used several times with different refines (description, default, mandatory, config, min-elements incl. 0, max-elements as a number and as 'unbounded', each refined into the other) and uses-augments (into containers and lists of the copy), module-level augments into plain and into grouping-expanded containers in textual order, config false stated on some nodes; the compiled tree (kind, name, order, effective config, description, default, mandatory, min-/max-elements of every node) compared with the Lean expansion of the factored form, with the harness's own expansion, and with the compiled tree of the same schema written inline without any grouping, augment or second file; also: a leaf, container or list named like the grouping used next to it, a uses whose augment uses the same grouping again, a module grouping named like the imported grouping it wraps, presence stated and refined, leaves guarded by an enabled feature of the module (the load has imports); four augments of one module, each adding the target of the next, in six textual orders; directed (c01scopes): a prefix that the module and its submodule bind to different modules which both define the grouping and the typedef that are used, and a grouping whose leaves take default and units from a typedef, used three times - every copy against the same nodes written inline. non-trivial = module set with ≥2 uses, ≥1 refine and ≥1 augment; distinct by module set"
 	c.Assumptions = append(c.Assumptions,
 		"every leaf is of type string (types are C02); if-feature, choice/case, deviations and rpc/notification content are not generated here (C11 covers feature guards, C09/C06 choices)",
 		"explicit 'config true' is never written (only 'config false'), so every generated module set is valid wherever a grouping is used")
@@ -1342,4 +1344,77 @@ func c01min(a, b int) int {
 		return a
 	}
 	return b
+}
+
+// whose names a uses sees, and what every copy of a grouping's leaf carries: (a) a module and its submodule bind one
+// prefix to different modules, both of which define the grouping g and the typedef t that are used - a prefix belongs to
+// the file it is written in (RFC 7950 7.1.5); (b) the leaves of a grouping take their default and units from a typedef
+// and the grouping is used three times - every copy is the leaf written inline
+func c01scopes(c *core.Ctx) {
+	files := map[string]string{
+		"main": `module main { namespace "urn:main"; prefix main; import l1 { prefix x; } include s1; revision 2020-01-01;
+  container top { uses x:g; } leaf mt { type x:t; }
+  typedef pct { type int32; default 50; units percent; } typedef plain { type string; }
+  grouping lv { leaf level { type pct; } leaf own { type pct; default 7; } leaf word { type plain; } }
+  container one { uses lv; } container two { uses lv; } list three { key word; uses lv; }
+  container inline { leaf level { type pct; } leaf own { type pct; default 7; } leaf word { type plain; } } }`,
+		"s1": `submodule s1 { belongs-to main { prefix main; } import l2 { prefix x; } container stop { uses x:g; } leaf st { type x:t; } }`,
+		"l1": `module l1 { namespace "urn:l1"; prefix l1; typedef t { type string; units "u1"; } grouping g { leaf in-l1 { type string; } } }`,
+		"l2": `module l2 { namespace "urn:l2"; prefix l2; typedef t { type int32; units "u2"; } grouping g { leaf in-l2 { type string; } } }`,
+	}
+	for round := 0; round < 8; round++ {
+		c.Evaluations++
+		c.Count("directed", "scopes")
+		res := ""
+		perr := safeDo(func() error {
+			m, err := parser.LoadModule(func(name, ext string) (io.Reader, error) {
+				if y, ok := files[name]; ok {
+					return strings.NewReader(y), nil
+				}
+				return nil, fmt.Errorf("no module %s", name)
+			}, "main")
+			if err != nil {
+				return fmt.Errorf("valid module set does not load: %v", err)
+			}
+			show := func(p string) string {
+				l, ok := meta.Find(m, p).(*meta.Leaf)
+				if !ok {
+					return p + ": not there"
+				}
+				d := "<none>"
+				if l.HasDefault() {
+					d = fmt.Sprint(l.Default())
+				}
+				return fmt.Sprintf("type=%s format=%v default=%s units=%q", l.Type().Ident(), l.Type().Format(), d, l.Units())
+			}
+			for p, want := range map[string]string{"top/in-l1": "", "stop/in-l2": "", "top/in-l2": "not there", "stop/in-l1": "not there"} {
+				got := show(p)
+				if (want == "not there") != strings.HasSuffix(got, "not there") {
+					res = fmt.Sprintf("uses x:g: node %s: %s (the module binds x to l1, its submodule binds x to l2)", p, got)
+					return nil
+				}
+			}
+			if mt, st := show("mt"), show("st"); !strings.Contains(mt, `units="u1"`) || !strings.Contains(st, `units="u2"`) {
+				res = fmt.Sprintf("type x:t: the module's leaf reads %s (want l1's t, units u1), the submodule's %s (want l2's t, units u2)", mt, st)
+				return nil
+			}
+			for _, leaf := range []string{"level", "own", "word"} {
+				want := show("inline/" + leaf)
+				for _, copy := range []string{"one", "two", "three"} {
+					if got := show(copy + "/" + leaf); got != want {
+						res = fmt.Sprintf("copy %s/%s of the grouping's leaf reads %s; the same leaf written inline reads %s", copy, leaf, got, want)
+						return nil
+					}
+				}
+			}
+			return nil
+		})
+		if perr != nil {
+			res = perr.Error()
+		}
+		if res != "" {
+			c.Violation(core.Replay{Kind: "property-failure", Class: "scopes", Summary: "compiled tree ≠ RFC 7950 expansion: " + res, Input: files})
+			return
+		}
+	}
 }
